@@ -899,6 +899,11 @@ func (e *relExec) doRecover() string {
 			if !alloc {
 				e.failf("chain-broken: confirmed file %s is pushed but not fully allocated", n)
 			}
+			// a cache entry queued as "already delivered" (it only holds its place in the ordering chain and is never
+			// sent, tracked or polled again) must have been confirmed by the receiver in this recovery
+			if snap, ok := before[n]; !e.positives[n] && !(ok && snap.done) {
+				e.failf("chain-unconfirmed: %s is queued as already delivered (fully allocated, never to be sent or polled) although it was not done before and the receiver gave no positive answer for it in this recovery", n)
+			}
 		case "resume":
 			var ls []string
 			for _, r := range left {
